@@ -79,7 +79,11 @@ func (w *World) loadSimInit(a Act) {
 	}
 	s := in.Set
 	sc := &Scenario{}
-	sc.Set = SetSpec{Name: simName, Replicas: s.Replicas, SlotsAnn: slotsAnn(s.Slots), Policy: s.Policy, Strat: s.Strat,
+	strat := s.Strat
+	if strat == "RollingUpdateBare" { // type RollingUpdate without the rollingUpdate block
+		strat = "RollingUpdate"
+	}
+	sc.Set = SetSpec{Name: simName, Replicas: s.Replicas, SlotsAnn: slotsAnn(s.Slots), Policy: s.Policy, Strat: strat,
 		RuBlock: s.Strat == "RollingUpdate", PartPresent: s.Strat == "RollingUpdate", Part: s.Part, Tmpl: s.Tmpl, Paused: s.Paused,
 		HistLimit: s.HistLimit, Gen: s.Gen, ObsGen: int64(s.Status.ObsGen), StReplicas: s.Status.Replicas, StReady: s.Status.Ready,
 		StCurrent: s.Status.Current, StUpdated: s.Status.Updated, CurRev: s.Status.CurRev, UpdRev: s.Status.UpdRev, Collisions: s.Status.Collisions,
@@ -367,6 +371,16 @@ func (w *World) pvcUIDs() [][]string {
 	return out
 }
 
+// anyTerminating: the kubelet still owes the cluster a step.
+func (w *World) anyTerminating() bool {
+	for _, p := range w.apiPods() {
+		if p.DeletionTimestamp != nil {
+			return true
+		}
+	}
+	return false
+}
+
 func stateKey(st map[string]interface{}) string {
 	b, _ := json.Marshal(st)
 	return string(b)
@@ -438,6 +452,10 @@ func (w *World) run(b *Behaviour, strip string, maxRounds int) *simOut {
 	w.apply(Act{"act": "Unpause"})
 	w.gcAll() // the garbage collector finishes orphaning the dependents of a deleted built-in set
 	prev := ""
+	var termSeen map[string]bool
+	if w.slowTail {
+		termSeen = map[string]bool{}
+	}
 	for r := 0; r < maxRounds; r++ {
 		w.e.CacheSyncAll(w.queueMode)
 		var rec map[string]interface{}
@@ -452,13 +470,14 @@ func (w *World) run(b *Behaviour, strip string, maxRounds int) *simOut {
 			rec = w.Reconcile(simName)
 			out.Recs = append(out.Recs, rec)
 		}
-		w.e.KubeletAll()
+		// (slow tail: a terminating pod outlives one more reconcile)
+		w.e.KubeletSome(termSeen)
 		w.e.CacheSyncAll(w.queueMode)
 		st := w.ClusterState()
 		out.Tail = append(out.Tail, map[string]interface{}{"res": rec["res"], "writes": writesOf(rec), "state": st})
 		out.Rounds = r + 1
 		k := stateKey(st)
-		if k == prev && writesOf(rec) == 0 && rec["res"] == "ok" {
+		if k == prev && writesOf(rec) == 0 && rec["res"] == "ok" && !w.anyTerminating() {
 			out.Quiet = true
 			break
 		}
@@ -486,7 +505,7 @@ func (w *World) randomBehaviour(r *rand.Rand, maxOrd, depth int, id string, migr
 		s.Replicas--
 	}
 	s.Policy = []string{"OrderedReady", "Parallel"}[r.Intn(2)]
-	s.Strat = []string{"RollingUpdate", "RollingUpdate", "OnDelete"}[r.Intn(3)]
+	s.Strat = []string{"RollingUpdate", "RollingUpdate", "OnDelete", "RollingUpdateBare"}[r.Intn(4)]
 	if s.Strat == "RollingUpdate" {
 		s.Part = int32(r.Intn(3))
 	}
@@ -545,7 +564,7 @@ func (w *World) randomBehaviour(r *rand.Rand, maxOrd, depth int, id string, migr
 				pod["phase"], pod["term"], pod["owner"] = "Running", false, "other"
 				pod["ready"] = r.Intn(3) > 0
 			}
-			if ph == "Failed" && !desiredContains(int(s.Replicas), s.Slots, o) {
+			if ph == "Failed" && !desiredContains(int(s.Replicas), s.Slots, o) && s.Policy != "Parallel" {
 				pod["phase"] = "Running" // the fairness premise of C02
 			}
 		}
@@ -691,11 +710,11 @@ func (w *World) userGuard(a Act, maxOrd int) bool {
 		return w.tmplID(s, &s.Spec.Template) != a["t"]
 	case "SetPartition":
 		ru := s.Spec.UpdateStrategy.RollingUpdate
-		return string(s.Spec.UpdateStrategy.Type) == "RollingUpdate" && (ru == nil || ru.Partition == nil || int(*ru.Partition) != a.num("p"))
+		return string(s.Spec.UpdateStrategy.Type) == "RollingUpdate" && ru != nil && (ru.Partition == nil || int(*ru.Partition) != a.num("p"))
 	case "Pause":
 		return s.Annotations[helper.PausedReconcileAnn] != "true"
 	case "PodFail":
-		return desiredContains(rep, sl, a.num("o"))
+		return desiredContains(rep, sl, a.num("o")) || s.Spec.PodManagementPolicy == apps.ParallelPodManagement
 	}
 	return true
 }
@@ -710,6 +729,7 @@ func cmdSim(args []string) {
 	workers := fs.Int("workers", 16, "")
 	rounds := fs.Int("rounds", 60, "bound of the fair tail")
 	twins := fs.Bool("twins", true, "also run the fault-free and the never-paused twin of every behaviour")
+	tail := fs.String("tail", "mixed", "kubelet of the fair tail: fast, slow, or mixed (every other behaviour slow)")
 	queue := fs.Bool("queue", false, "reconciles only through the controller's work queue; cache refreshes fire the event handlers")
 	claims := fs.Int("claims", 0, "random behaviours: 0 sets without claim templates, 1 with one, 2 mixed")
 	migration := fs.Bool("migration", false, "random behaviours start from a freshly migrated set (pods and revisions still owned by the built-in set)")
@@ -763,9 +783,10 @@ func cmdSim(args []string) {
 					b = w.randomBehaviour(rnd, *maxOrd, *depth, fmt.Sprintf("rnd-%d-%d", *seed, i), *migration, *claims)
 					// drop user actions whose guard fails in the real world as the behaviour unfolds: done inside run via 'enabled'
 				}
+				w.slowTail = *tail == "slow" || (*tail == "mixed" && i%2 == 1)
 				o := w.runGuarded(b, "", *rounds, *maxOrd)
 				rec := map[string]interface{}{"id": b.ID, "steps": o.Steps, "tail": o.Tail, "final": o.Final,
-					"quiet": o.Quiet, "rounds": o.Rounds, "maxord": *maxOrd}
+					"quiet": o.Quiet, "rounds": o.Rounds, "maxord": *maxOrd, "slowTail": w.slowTail}
 				hasFault, hasPause := false, false
 				for _, a := range b.Acts {
 					if a.name() == "Reconcile" {
